@@ -140,7 +140,7 @@ Deliver(m, s, r) ==
        IF h.s = s /\ h.r = r THEN [m EXCEPT !.exp = Tail(@)]
        ELSE IF h.s = s THEN Fail([m EXCEPT !.exp = Tail(@)], IF m.rj THEN "C14:reset-frame-alters-earlier-arbitration-result"
                                                                   ELSE "C14:arbitration-result-altered")
-       ELSE LET ks == {k \in 2..Len(m.exp) : m.exp[k].s = s /\ m.exp[k].r = r} IN
+       ELSE LET ks == {k \in 2..Len(m.exp) : m.exp[k].s = s} IN
             IF ks = {} THEN Fail([m EXCEPT !.exp = Tail(@)], "C14:symbol-altered")
             ELSE Fail([m EXCEPT !.exp = SubSeq(@, MinOf(ks) + 1, Len(@))], LostSig(m))
 
